@@ -15,6 +15,8 @@ MAYBE_DEAD = [{"label": "transport open", "sets": {"self._channel.stream.sock": 
               {"label": "transport died", "sets": {"self._channel.stream.sock": "ClosedFile"}, "modifies": CONN_IO_DEAD}]
 # ... or, on paths that dispatch incoming messages, the whole connection went down (the peer's close request)
 MAYBE_DOWN = [MAYBE_DEAD[0], {"label": "connection down", "sets": {"self._channel.stream.sock": "ClosedFile"}, "modifies": CONN_IO}]
+# class invariant of a connection used throughout: every slot of the table of lent objects is well formed
+TABLE_OK = "all_slots_ok(self._local_objects._dict)"
 OPEN = [SOCK + " is not ClosedFile", "not %s.failed" % SOCK]
 P = ["C08", "C12", "C01", "C19"]
 
@@ -133,10 +135,12 @@ def register_dispatch(S):
                    {"label": "not callable that way", "raise": "TypeError"},
                    {"label": "returns", "when": ["known_handler(handler)", "not is_close_handler(handler)"],
                     "events": [("HandlerRun", "handler", "args")],
-                    "modifies": ["conn._last_traceback", "conn._local_objects._dict"]},
+                    "modifies": ["conn._last_traceback", "conn._local_objects._dict"],
+                    "assume": ["implies(old(all_slots_ok(conn._local_objects._dict)), all_slots_ok(conn._local_objects._dict))"]},
                    {"label": "raises", "raise": "*", "when": ["known_handler(handler)", "not is_close_handler(handler)"],
                     "events": [("HandlerRun", "handler", "args")],
-                    "modifies": ["conn._last_traceback", "conn._local_objects._dict"]},
+                    "modifies": ["conn._last_traceback", "conn._local_objects._dict"],
+                    "assume": ["implies(old(all_slots_ok(conn._local_objects._dict)), all_slots_ok(conn._local_objects._dict))"]},
                    # the peer's close request: Connection._handle_close -> _cleanup (its contract: closed, clean, hook once)
                    {"label": "close handler", "when": ["is_close_handler(handler)"], "events": [("HandlerRun", "handler", "args")],
                     "sets": {"conn._channel.stream.sock": "ClosedFile"},
@@ -154,27 +158,28 @@ def register_dispatch(S):
                abstract_calls={"self._HANDLERS[handler]": "handler_run", "logger.debug": "log"},
                init=QUIET,
                requires=["plain(seq)", "sized(seq)", "plain(raw_args)", "haskey(self._config, 'logger')",
-                         "not self._closed", "not isnone(self._local_root)",
+                         "not self._closed", "not isnone(self._local_root)", TABLE_OK,
                          "haskey(self._config, 'propagate_SystemExit_locally')",
                          "haskey(self._config, 'propagate_KeyboardInterrupt_locally')"] + OPEN,
                ensures={"quiescent_after": ("isnil(self._send_queue.items) and not self._sendlock.held and "
-                                            "implies(not self._closed, not isnone(self._local_root))", ["C11", "C08", "C12"]),
+                                            "implies(not self._closed, not isnone(self._local_root)) and " + TABLE_OK,
+                                            ["C11", "C08", "C12"]),
                         "exactly_one_response_with_the_requests_number": (ONE_REPLY, P8),
                         "executed_at_most_once": ("n_ev('HandlerRun') <= 1", P8),
                         "result_goes_into_a_reply": ("implies(same(callee_arg('_send', 0, 'msg'), MSG_REPLY), "
                                                      "n_ev('HandlerRun') == 1 and n_callees('_box') == 1 and "
                                                      "same(callee_arg('_send', 0, 'args'), callee_result('_box', 0)))", P8)},
                raises={
-                   "EOFError": {"state": [ONE_REPLY, "n_ev('HandlerRun') <= 1", "not self._sendlock.held",
+                   "EOFError": {"state": [ONE_REPLY, "n_ev('HandlerRun') <= 1", "not self._sendlock.held", TABLE_OK,
                                           "implies(not self._closed, not isnone(self._local_root))"], "props": P8 + ["C11"],
                                 "sets": {"self._channel.stream.sock": "ClosedFile"},
                                 "modifies": CONN_IO},
                    "SystemExit": {"only_when": "truthy(self._config['propagate_SystemExit_locally'])",
-                                  "state": ["n_ev('HandlerRun') <= 1", "n_callees('_send') == 0", "not self._sendlock.held",
+                                  "state": ["n_ev('HandlerRun') <= 1", "n_callees('_send') == 0", "not self._sendlock.held", TABLE_OK,
                                             "implies(not self._closed, not isnone(self._local_root))"], "props": P8,
                                   "variants": MAYBE_DOWN},
                    "KeyboardInterrupt": {"only_when": "truthy(self._config['propagate_KeyboardInterrupt_locally'])",
-                                         "state": ["n_ev('HandlerRun') <= 1", "n_callees('_send') == 0", "not self._sendlock.held",
+                                         "state": ["n_ev('HandlerRun') <= 1", "n_callees('_send') == 0", "not self._sendlock.held", TABLE_OK,
                                                    "implies(not self._closed, not isnone(self._local_root))"], "props": P8,
                                          "variants": MAYBE_DOWN},
                },
@@ -208,34 +213,36 @@ def register_requests(S):
     # ---- incoming: one message, routed by its kind ------------------------------------------------------------
     S.contract(F + "_dispatch", params={"self": "obj:Connection", "data": "val"}, init=QUIET,
                requires=["isbytes(data)", "haskey(self._config, 'logger')", "not self._closed", "not isnone(self._local_root)",
+                         TABLE_OK,
                          "haskey(self._config, 'propagate_SystemExit_locally')",
                          "haskey(self._config, 'propagate_KeyboardInterrupt_locally')"] + OPEN,
                calls={"load": {"behaviour": "safety"}},
                ensures={"quiescent_after": ("isnil(self._send_queue.items) and not self._sendlock.held and "
-                                            "implies(not self._closed, not isnone(self._local_root))", ["C11", "C08", "C12"]),
+                                            "implies(not self._closed, not isnone(self._local_root)) and " + TABLE_OK,
+                                            ["C11", "C08", "C12"]),
                         "routed_by_kind": (
-                   "n_events() == 1 + n_callees('load') + n_callees('_unbox') + n_callees('_unbox_exc') and "
+                   "n_events() == 1 + n_callees('_unbox') + n_callees('_unbox_exc') and "
                    "n_callees('_dispatch_request') + n_callees('_seq_request_callback') == 1", P8),
                    "request_layout": (
-                   "implies(n_callees('_dispatch_request') == 1, n_callees('load') == 1 and "
-                   "head(items(callee_result('load', 0))) == MSG_REQUEST and "
-                   "same(callee_arg('_dispatch_request', 0, 'seq'), head(tail(items(callee_result('load', 0))))) and "
-                   "same(callee_arg('_dispatch_request', 0, 'raw_args'), head(tail(tail(items(callee_result('load', 0)))))))", P8),
+                   "implies(n_callees('_dispatch_request') == 1, "
+                   "head(items(decoded(data))) == MSG_REQUEST and "
+                   "same(callee_arg('_dispatch_request', 0, 'seq'), head(tail(items(decoded(data))))) and "
+                   "same(callee_arg('_dispatch_request', 0, 'raw_args'), head(tail(tail(items(decoded(data)))))))", P8),
                    "response_to_the_request_with_that_number": (
                    "implies(n_callees('_seq_request_callback') == 1, "
-                   "same(callee_arg('_seq_request_callback', 0, 'seq'), head(tail(items(callee_result('load', 0))))) and "
+                   "same(callee_arg('_seq_request_callback', 0, 'seq'), head(tail(items(decoded(data))))) and "
                    "(callee_arg('_seq_request_callback', 0, 'is_exc') == False and n_callees('_unbox') == 1 and "
-                   " head(items(callee_result('load', 0))) == MSG_REPLY and "
+                   " head(items(decoded(data))) == MSG_REPLY and "
                    " same(callee_arg('_seq_request_callback', 0, 'obj'), callee_result('_unbox', 0)) and "
-                   " same(callee_arg('_unbox', 0, 'package'), head(tail(tail(items(callee_result('load', 0)))))) "
+                   " same(callee_arg('_unbox', 0, 'package'), head(tail(tail(items(decoded(data)))))) "
                    " if n_callees('_unbox') == 1 else "
                    " callee_arg('_seq_request_callback', 0, 'is_exc') == True and n_callees('_unbox_exc') == 1 and "
-                   " head(items(callee_result('load', 0))) == MSG_EXCEPTION and "
+                   " head(items(decoded(data))) == MSG_EXCEPTION and "
                    " same(callee_arg('_seq_request_callback', 0, 'obj'), callee_result('_unbox_exc', 0)) and "
-                   " same(callee_arg('_unbox_exc', 0, 'raw'), head(tail(tail(items(callee_result('load', 0))))))))", P8)},
+                   " same(callee_arg('_unbox_exc', 0, 'raw'), head(tail(tail(items(decoded(data))))))))", P8)},
                raises={"BaseException": {"props": P8, "variants": MAYBE_DOWN, "state": [
                    "n_callees('_dispatch_request') + n_callees('_seq_request_callback') <= 1",
-                   "not self._sendlock.held", "implies(not self._closed, not isnone(self._local_root))"]}},
+                   "not self._sendlock.held", "implies(not self._closed, not isnone(self._local_root))", TABLE_OK]}},
                modifies=CONN_IO_OK)
     # ---- outgoing: the callback is registered under a fresh number BEFORE the request is sent --------------------
     S.contract(F + "_async_request", params={"self": "obj:Connection", "handler": "val", "args": "val", "callback": "val"},
@@ -243,7 +250,7 @@ def register_requests(S):
                behaviours={"closed": dict(
                    # issued after the connection's transport is gone: EOFError, and no callback stays registered
                    init=dict(QUIET, **{"self._channel.stream.sock": "ClosedFile"}), noreturn=True,
-                   requires=["plain(handler)", "sized(handler)"],
+                   requires=["plain(handler)", "sized(handler)", TABLE_OK],
                    raises={"EOFError": {"props": ["C11", "C08"], "modifies": ["self._request_callbacks", "self._seqcounter.nxt",
                                                                               "self._local_objects._dict", "self._send_queue"],
                                         "state": ["not self._sendlock.held", "n_callees('_get_seq_id') == 1 and "
@@ -253,7 +260,7 @@ def register_requests(S):
                                              "modifies": ["self._request_callbacks", "self._seqcounter.nxt",
                                                           "self._local_objects._dict", "self._send_queue"]}},
                    modifies=[])},
-               init=QUIET, requires=OPEN + ["plain(handler)", "sized(handler)"],
+               init=QUIET, requires=OPEN + ["plain(handler)", "sized(handler)", TABLE_OK],
                ensures={"registered_then_sent": (
                    "n_callees('_get_seq_id') == 1 and n_callees('_box') == 1 and n_callees('_send') == 1 and n_events() == 3 and "
                    "same(callee_arg('_send', 0, 'msg'), val(MSG_REQUEST)) and "
@@ -283,7 +290,7 @@ def register_api(S):
                init={"self._sendlock.held": "False", "self._send_queue.items": "nil()"}, clock=True,
                ghost={"tmo": "val"},
                # the only keyword accepted is `timeout`; tmo is its value (None when absent)
-               requires=OPEN + ["plain(handler)", "sized(handler)",
+               requires=OPEN + ["plain(handler)", "sized(handler)", TABLE_OK,
                                 "only_key(kwargs, 'timeout')",
                                 "same(tmo, kwargs['timeout'] if haskey(kwargs, 'timeout') else None)",
                                 "isnone(tmo) or (isnum(tmo) and num_of(tmo) >= 0)"],
@@ -300,7 +307,7 @@ def register_api(S):
                modifies=CONN_IO_OK + ["kwargs"])
     S.contract(F + "sync_request", params={"self": "obj:Connection", "handler": "val", "args": "vl"}, result="val",
                init={"self._sendlock.held": "False", "self._send_queue.items": "nil()"}, clock=True,
-               requires=OPEN + ["plain(handler)", "sized(handler)", "haskey(self._config, 'sync_request_timeout')",
+               requires=OPEN + ["plain(handler)", "sized(handler)", TABLE_OK, "haskey(self._config, 'sync_request_timeout')",
                                 "isnone(self._config['sync_request_timeout']) or (isnum(self._config['sync_request_timeout']) "
                                 "and num_of(self._config['sync_request_timeout']) >= 0)"],
                calls={"async_request": {"ghost": {"tmo": "self._config['sync_request_timeout']"}}},
